@@ -59,7 +59,10 @@ def run_worker(obl, timeout, tmpdir, seed):
   if not os.path.exists(out):
     return {'verdict': 'error', 'detail': 'worker wrote no result (rc=%s): %s' % (rc, stderr[-1500:]),
             'wall_s': time.time() - t0}
-  res = json.load(open(out))
+  try:
+    res = json.load(open(out))
+  except ValueError as e:
+    return {'verdict': 'error', 'detail': 'worker result unreadable (%s): %s' % (e, stderr[-1500:]), 'wall_s': time.time() - t0}
   res.setdefault('wall_s', time.time() - t0)
   if res.get('verdict') == 'error':
     res['stderr'] = stderr[-1500:]
